@@ -26,7 +26,7 @@ func init() { register(&Check{ID: "C18", Race: true, Run: runC18, Child: childC1
 var c18Queries = []struct{ Name, SQL string }{
 	{"direct", "SELECT id, v, v * 2 AS d FROM stream WHERE v >= 0"},
 	{"direct_vpanic", "SELECT id, vpanic(v) AS d FROM stream"},
-	{"analytic", "SELECT id, k, lag(v) OVER (PARTITION BY k) AS pv, acc_sum(v) OVER (PARTITION BY k) AS tot FROM stream"},
+	{"analytic", "SELECT id, k, lag(v) OVER (PARTITION BY k) AS pv, acc_sum(v) OVER (PARTITION BY k) AS tot, lag(v) OVER (PARTITION BY k WHEN v > 10) AS gv FROM stream"},
 	{"cep", "SELECT * FROM stream MATCH_RECOGNIZE (ORDER BY ts MEASURES MATCH_NUMBER() AS mn, COUNT(*) AS n, FIRST(A.id) AS fid ONE ROW PER MATCH PATTERN (A+) DEFINE A AS v > 0)"},
 	{"tumbling_pt", "SELECT k, count(*) AS c, sum(v) AS s FROM stream GROUP BY k, TumblingWindow('20ms')"},
 	{"tumbling_et", "SELECT k, count(*) AS c, sum(v) AS s FROM stream GROUP BY k, TumblingWindow('1s') WITH (TIMESTAMP='ts', TIMEUNIT='ms', MAXOUTOFORDERNESS='200ms', ALLOWEDLATENESS='1s')"},
@@ -87,10 +87,20 @@ func genC18(ref core.CaseRef, r *rand.Rand) *c18Batch {
 			b.BlockMs = 2
 		}
 	}
-	if q.Name == "cep" && r.Intn(2) == 0 {
+	if q.Name == "cep" && r.Intn(2) == 0 && ref.Index%24 != 3 {
 		b.Mode = "flush"
 		b.Strategy = "block"
 		b.Sink = "fast"
+	}
+	if q.Name == "cep" && (b.Mode == "survival" || ref.Index%24 == 3) && b.Mode != "flush" {
+		// a row function that panics inside DEFINE: the panic must not wedge the pattern engine (later rows are
+		// processed, Stop returns and flushes)
+		b.Mode, b.Strategy, b.BlockMs = "survival", "block", 0
+		b.Query = "cep_vpanic"
+		b.SQL = "SELECT * FROM stream MATCH_RECOGNIZE (ORDER BY ts MEASURES MATCH_NUMBER() AS mn, COUNT(*) AS n, FIRST(A.id) AS fid ONE ROW PER MATCH PATTERN (A+ B) DEFINE A AS vpanic(v) > 0, B AS v > 40)"
+		if b.Sink != "fast" {
+			b.Sink = "panicking"
+		}
 	}
 	return b
 }
@@ -453,7 +463,7 @@ func c18Survival(ctx *core.Ctx, b *c18Batch, s *streamsql.Streamsql, viol func(s
 	for j := 0; j < n; j++ {
 		v := j%50 + 1
 		if marker[j] {
-			if b.Query == "direct_vpanic" {
+			if b.Query == "direct_vpanic" || b.Query == "cep_vpanic" {
 				v = 666 // the row function panics
 			} else {
 				v = 667 // the panicking sink panics on this value (direct queries project v)
